@@ -174,8 +174,9 @@ rd_prepoll(const struct pollfd * fds, int nfds, int timeout)
 	 * later: by the time the loop polls again (immediate events have run by
 	 * then) a wait whose bytes have all been received must have completed.
 	 */
-	if (waiting && !ended && !mc_failed() && fk_in_read(fd) - kpos(c_app) >= wait_k)
-		FAIL("reader-late", "wait(%zu) is still pending although %zu unconsumed bytes have been received", wait_k, fk_in_read(fd) - kpos(c_app));
+	/* (bytes dropped by the known finding F6 are not part of the stream the application can see) */
+	if (waiting && !ended && !mc_failed() && fk_in_read(fd) - total_gap() - c_app >= wait_k)
+		FAIL("reader-late", "wait(%zu) is still pending although %zu unconsumed bytes have been received", wait_k, fk_in_read(fd) - total_gap() - c_app);
 	if (waiting && !fk_polled(fds, nfds, fd, POLLIN))
 		FAIL("reader-lost-wakeup", "wait(%zu) is pending but the descriptor is not polled for reading: it can never complete", wait_k);
 	if (mc_failed()) mc_cut("violation recorded");
@@ -288,10 +289,17 @@ wr_body(void)
 		wr_state(0, 0);
 		if (ops >= op_bound) break;
 		kind[nm++] = 0;
-		for (i = 0; i < 7; i++) { kind[nm] = 1; a1[nm++] = WN[i]; }
-		for (i = 0; i < 7; i++) {
-			size_t n = WN[i], ms[4] = {0, 1, n ? n - 1 : 0, n}; int dup;
-			for (a = 0; a < 4; a++) { int j; if (ms[a] > n || ms[a] == n) continue; dup = 0; for (j = 0; j < a; j++) if (ms[j] == ms[a]) dup = 1; if (dup) continue; kind[nm] = 2; a1[nm] = n; a2[nm++] = ms[a]; }
+		if (vf_tier == 0) {
+			/* quick: a smaller alphabet that still has empty, coalescing, boundary and oversized writes, and partial reservations */
+			static const size_t QW[] = {0, 1, 4096, 4097, 9000}, QR[][2] = { {5, 0}, {5, 3}, {4097, 4097}, {9000, 1} };
+			for (i = 0; i < 5; i++) { kind[nm] = 1; a1[nm++] = QW[i]; }
+			for (i = 0; i < 4; i++) { kind[nm] = 2; a1[nm] = QR[i][0]; a2[nm++] = QR[i][1]; }
+		} else {
+			for (i = 0; i < 7; i++) { kind[nm] = 1; a1[nm++] = WN[i]; }
+			for (i = 0; i < 7; i++) {
+				size_t n = WN[i], ms[4] = {0, 1, n ? n - 1 : 0, n}; int dup;
+				for (a = 0; a < 4; a++) { int j; if (ms[a] > n || ms[a] == n) continue; dup = 0; for (j = 0; j < a; j++) if (ms[j] == ms[a]) dup = 1; if (dup) continue; kind[nm] = 2; a1[nm] = n; a2[nm++] = ms[a]; }
+			}
 		}
 		kind[nm++] = 5;
 		c = mc_pick(nm, "op");
